@@ -1412,3 +1412,60 @@ def rule_best_path_moves(ctx, m):
                       'moves must be diagonal (row-1, col-1, Q%+d), left (col-1, Q-1), up (row-1, Q%+d) with the row bases shifted on every row change; found diag=%s left=%s up=%s'
                       % (Delta - 1, Delta, md, ml, mu), ch.line)
         ctx.sample({'back-tracker': fn, 'shifts (D, C, A-B)': shifts})
+
+
+def rule_wps_exits(ctx, m):
+    """The compact writers honour max_length_diff like the distance-only routine, and their psi_2e end scan stays inside
+    the band of the last row."""
+    pdefs, praw = parts_defs(m)
+    for fname in WRITERS:
+        info = analyse_writer(m, fname)
+        f = info['func']
+        amap = kernels.AtomMap('c', [p[0] for p in f.params][1:5] + ['settings'], ('settings',))
+
+        class AM:
+            def __call__(self, e):
+                if e[0] == 'var' and e[1] == 'l1':
+                    return 'L1'
+                if e[0] == 'var' and e[1] == 'l2':
+                    return 'L2'
+                if e[0] == 'attr' and e[1] == ('var', 'settings'):
+                    return kernels._SETTINGS_ATOM.get(e[2], 'S_' + e[2])
+                if e[0] == 'attr' and e[1] == ('var', 'p'):
+                    return 'P_' + e[2]
+                if e[0] == 'var':
+                    return e[1]
+                return None
+        kern.rule_length_diff_exit(ctx, fname, f.file, info['prologue'].events, AM(), f.line)
+        # psi_2e scan: `for (ci = l2-1; ci > l2-psi_2e-2; ci--) { ...; wpsi -= 1; }` visits N = psi_2e + 1 positions going left from the last column
+        regs = info['regions']
+        scans = []
+        for e in info['epilogue'].events:
+            if e[0] == 'loop' and e[2].k == 'loop':
+                lp = e[2]
+                if lp.cond is not None and lp.cond[0] == 'bin' and lp.cond[1] == '>' and len(lp.init) == 1 and lp.init[0].k == 'assign' \
+                        and any(t.k == 'assign' and t.target == ('var', regs[-1].wvar) and t.value == ('bin', '-', ('var', regs[-1].wvar), ('num', 1)) for t in lp.body):
+                    n = sym.from_ir(('bin', '-', lp.init[0].value, lp.cond[3]), atom=AM())
+                    scans.append((lp, n))
+        if not scans:
+            ctx.undecided('R-CLAMP', '%s psi_2e scan' % fname, 'scan loop not recognised')
+            continue
+        lp, n = scans[0]
+        # available in-band positions to the left of the last column in the last row: (L2 - 1) - c0(L1 - 1), per region containing row L1-1
+        done = False
+        for R in regs:
+            guards = [sub(sub(V('L1'), C(1)), R.lo), sub(R.hi, V('L1')), V('PSI2E'), sub(V('L2'), V('PSI2E'))]
+            avail = sub(sub(V('L2'), C(1)), sym.subst(R.c0, {'ri': sub(V('L1'), C(1))}))
+            over = tmax(C(0), sub(sub(n, C(1)), add(avail, C(1))))      # one position left of the band is the (infinite) boundary/prefix cell
+            r = decide_equal(pdefs, over, C(0), guards, extra_atoms=('PSI2E',), box={'L1': range(1, 11, 3), 'L2': range(1, 11, 3), 'W': range(0, 4), 'PSI2E': range(0, 10)})
+            inst = '%s psi_2e scan stays in the band (last row in region %s)' % (fname, R.name)
+            if r[0] == 'equal':
+                ctx.held('R-CLAMP', inst)
+            elif r[0] == 'differ' and not done:
+                done = True
+                ctx.violation('R-CLAMP', f.file, fname, 'psi_2e scan range',
+                              'the last-row relaxation walks %s positions to the left of the last column without clamping to the band: at %s it leaves the band by %s '
+                              'cell(s) and reads cells that belong to other columns/rows of the compact matrix (a wrong, smaller value is returned)' % (sym.show(n), kern._fmtw(r[1]), r[2]),
+                              lp.line, facts={'witness': r[1]})
+            elif r[0] == 'unknown':
+                ctx.undecided('R-CLAMP', inst, r[1])
